@@ -182,9 +182,9 @@ Theorem ex_swap_hyps :
   sorted_keys (d_objects (base ex_swap)) /\ fits 1 ex_swap /\ KnownClass 1 ex_swap = false /\
   page_iter (base ex_swap) = [(8,1); (3,0)]%N /\
   exists d', renumber_objects_with 1 ex_swap = Done d' /\
-    map fst (d_objects (base d')) = [(1,0); (2,0); (3,1); (4,0); (5,0)]%N /\
-    page_iter (base d') = [(3,1); (5,0)]%N /\
-    map (fun kb => bm_page (snd kb)) (bm_table d') = [(3,1); (5,0); (5,0)]%N /\
+    map fst (d_objects (base d')) = [(1,0); (2,0); (3,0); (4,0); (5,1)]%N /\
+    page_iter (base d') = [(3,0); (5,1)]%N /\
+    map (fun kb => bm_page (snd kb)) (bm_table d') = [(3,0); (5,1); (5,1)]%N /\
     d_max_id (base d') = 5%N.
 Proof.
   split; [exact ex_swap_sorted|]. split; [unfold fits; vm_compute; discriminate|].
@@ -193,12 +193,23 @@ Proof.
 Qed.
 
 (* ---------- refutations of the property on the pinned code (model RenumberV0) ---------- *)
-(* sequential renaming of bookmark targets: after the swap both bookmarks name the same object *)
+(* sequential renaming of bookmark targets: pages 5 and 3 swap; the pinned code renames 5 -> 3 and then
+   3 -> 5 one after the other, so afterwards all three bookmarks name the same page; the repaired code
+   keeps them apart *)
+Definition ex_swap0 : rdoc :=
+  mkrdoc (mkdoc [(K_Root, ORef 1 0)]
+     [((1,0), ODict [(K_Type, OName (bs "Catalog")); (K_Pages, ORef 2 0)]);
+      ((2,0), ODict [(K_Type, OName K_Pages); (K_Kids, OArr [ORef 5 0; ORef 3 0]); (K_Count, OInt 2)]);
+      ((3,0), page_of 2 "second"); ((5,0), page_of 2 "first")]%N 5)
+    [(None, (5,0)); (None, (3,0)); (Some 1, (3,0))]%N.
+
 Theorem bookmarks_v0_refuted :
-  exists d', renumber_objects_with_v0 1 ex_swap = Done d' /\
-    map (fun kb => bm_page (snd kb)) (bm_table ex_swap) = [(8,1); (3,0); (3,0)]%N /\
-    map (fun kb => bm_page (snd kb)) (bm_table d') = [(5,1); (5,1); (5,1)]%N.
-Proof. eexists. split; [vm_compute; reflexivity|]. split; vm_compute; reflexivity. Qed.
+  exists d0 d1, renumber_objects_with_v0 1 ex_swap0 = Done d0 /\ renumber_objects_with 1 ex_swap0 = Done d1 /\
+    map (fun kb => bm_page (snd kb)) (bm_table ex_swap0) = [(5,0); (3,0); (3,0)]%N /\
+    map (fun kb => bm_page (snd kb)) (bm_table d0) = [(4,0); (4,0); (4,0)]%N /\
+    map (fun kb => bm_page (snd kb)) (bm_table d1) = [(3,0); (4,0); (4,0)]%N /\
+    page_iter (base d1) = [(3,0); (4,0)]%N.
+Proof. do 2 eexists. split; [vm_compute; reflexivity|]. split; [vm_compute; reflexivity|]. repeat split; vm_compute; reflexivity. Qed.
 
 Definition ex_twice : rdoc :=
   mkrdoc (mkdoc [(K_Root, ORef 1 0)]
